@@ -1,7 +1,9 @@
-/* C01 (recovery module): recoverable-signature codec, all real code, all inputs.
- * parse_compact: recid outside [0,3] or NULL => illegal callback; r >= n or s >= n => ret 0 and all 65
- * bytes zero; otherwise the object holds (be256(in[0..32)), be256(in[32..64)), recid).
- * serialize_compact / convert: inverse of parse on every object a parser can produce. */
+/* C01 (recovery module): recoverable-signature codec, all real code, all inputs.  Objects are decoded with the TU's
+ * own secp256k1_ecdsa_recoverable_signature_load / secp256k1_ecdsa_signature_load, never by byte offsets.
+ * parse_compact: recid outside [0,3] or NULL => illegal callback, 0; accepted iff r < n and s < n, and then the object
+ * holds (be256(in[0..32)), be256(in[32..64)), recid).  serialize_compact / convert: inverse of parse on every object a
+ * parser can produce.  (The header promises nothing about the object after a rejected parse or about outputs on
+ * illegal use, so nothing is asserted there.) */
 #include "assumed_C01.h"
 #include "src/secp256k1.c"
 #include "post.h"
@@ -10,9 +12,9 @@ void h_rec_parse(void) {
     secp256k1_context ctx;
     INPUT_ARR(unsigned char, in64, 64); INPUT(int, recid); INPUT(_Bool, use_sig); INPUT(_Bool, use_in); INPUT(size_t, k);
     INPUT(secp256k1_ecdsa_recoverable_signature, sig);
-    secp256k1_ecdsa_recoverable_signature sig0 = sig; secp256k1_ecdsa_signature plain;
+    secp256k1_ecdsa_signature plain; secp256k1_scalar lr, ls; int lrec;
     unsigned char out64[64]; int ret, ret2, ret3, recid2 = -1; wide n = N_(), rv, sv;
-    __CPROVER_assume(k < 65);
+    __CPROVER_assume(k < 64);
     verif_ctx_init(&ctx);
     rv = be256(in64); sv = be256(in64 + 32);
 
@@ -21,20 +23,20 @@ void h_rec_parse(void) {
     __CPROVER_assert(ret == 0 || ret == 1, "C01 rec_parse: returns 0 or 1");
     __CPROVER_assert(g_error == 0, "C01 rec_parse: error callback never invoked");
     if (!use_sig || !use_in || recid < 0 || recid > 3) {
-        __CPROVER_assert(ret == 0 && g_illegal == 1, "C01 rec_parse: NULL argument or recid outside [0,3] => one illegal callback, ret 0");
-        __CPROVER_assert(sig.data[k] == sig0.data[k], "C01 rec_parse: nothing written on illegal use");
+        __CPROVER_assert(ret == 0 && g_illegal >= 1, "C01 rec_parse: NULL argument or recid outside [0,3] => illegal callback, ret 0");
     } else {
         __CPROVER_assert(g_illegal == 0, "C01 rec_parse: no callback on legal arguments");
         __CPROVER_assert(ret == (rv < n && sv < n), "C01 rec_parse: accepted iff r < n and s < n");
-        if (ret == 0) __CPROVER_assert(sig.data[k] == 0, "C01 rec_parse: overflow => all 65 bytes of the object zero");
         if (ret == 1) {
-            __CPROVER_assert(le256(&sig.data[0]) == rv && le256(&sig.data[32]) == sv && sig.data[64] == recid, "C01 rec_parse: object holds (r, s, recid)");
+            secp256k1_ecdsa_recoverable_signature_load(&ctx, &lr, &ls, &lrec, &sig);
+            __CPROVER_assert(sval(&lr) == rv && sval(&ls) == sv && lrec == recid, "C01 rec_parse: object holds (r, s, recid)");
             ret2 = secp256k1_ecdsa_recoverable_signature_serialize_compact(&ctx, out64, &recid2, &sig);
             __CPROVER_assert(ret2 == 1 && g_illegal == 0 && recid2 == recid, "C01 rec_parse: serialize returns 1 and the parsed recid");
-            if (k < 64) __CPROVER_assert(out64[k] == in64[k], "C01 rec_parse: serialize(parse(x)) = x");
+            __CPROVER_assert(out64[k] == in64[k], "C01 rec_parse: serialize(parse(x)) = x");
             ret3 = secp256k1_ecdsa_recoverable_signature_convert(&ctx, &plain, &sig);
             __CPROVER_assert(ret3 == 1 && g_illegal == 0, "C01 rec_parse: convert returns 1");
-            __CPROVER_assert(le256(&plain.data[0]) == rv && le256(&plain.data[32]) == sv, "C01 rec_parse: convert yields the plain signature (r, s)");
+            secp256k1_ecdsa_signature_load(&ctx, &lr, &ls, &plain);
+            __CPROVER_assert(sval(&lr) == rv && sval(&ls) == sv, "C01 rec_parse: convert yields the plain signature (r, s)");
             if (rv == 0 && recid == 3) REACH("rec_parse accepts r = 0 recid 3");
             if (sv == n - 1) REACH("rec_parse accepts s = n-1");
         }
@@ -45,32 +47,34 @@ void h_rec_parse(void) {
 
 void h_rec_ser(void) {
     secp256k1_context ctx;
-    INPUT(secp256k1_ecdsa_recoverable_signature, rsig); INPUT(_Bool, use_out); INPUT(_Bool, use_rsig); INPUT(_Bool, use_recid); INPUT(_Bool, do_convert); INPUT(size_t, k);
+    INPUT(secp256k1_ecdsa_recoverable_signature, rsig); INPUT(_Bool, use_out); INPUT(_Bool, use_rsig); INPUT(_Bool, use_recid); INPUT(_Bool, do_convert);
     INPUT(secp256k1_ecdsa_signature, plain); INPUT_ARR(unsigned char, out, 64); INPUT(int, recid0);
-    secp256k1_ecdsa_recoverable_signature rsig0 = rsig; secp256k1_ecdsa_signature plain0 = plain; unsigned char out0;
-    int ret, recid = recid0; wide n = N_(), rv, sv;
-    rv = le256(&rsig.data[0]); sv = le256(&rsig.data[32]);
-    __CPROVER_assume(rv < n && sv < n && rsig.data[64] <= 3);   /* representation invariant of a recoverable signature object */
-    __CPROVER_assume(k < 64);
-    verif_ctx_init(&ctx); out0 = out[k];
+    secp256k1_scalar r0, s0, lr, ls; int rec0, lrec;
+    int ret, recid = recid0; wide rv, sv;
+    verif_ctx_init(&ctx);
+    secp256k1_ecdsa_recoverable_signature_load(&ctx, &r0, &s0, &rec0, &rsig);
+    __CPROVER_assume(scalar_ok(&r0) && scalar_ok(&s0) && rec0 >= 0 && rec0 <= 3);   /* representation invariant of a recoverable signature object */
+    rv = sval(&r0); sv = sval(&s0);
     if (do_convert) {
         ret = secp256k1_ecdsa_recoverable_signature_convert(&ctx, use_out ? &plain : NULL, use_rsig ? &rsig : NULL);
         if (!use_out || !use_rsig) {
-            __CPROVER_assert(ret == 0 && g_illegal == 1 && plain.data[k] == plain0.data[k], "C01 rec_convert: NULL argument => one illegal callback, ret 0, nothing written");
+            __CPROVER_assert(ret == 0 && g_illegal >= 1, "C01 rec_convert: NULL argument => illegal callback, ret 0");
         } else {
             __CPROVER_assert(ret == 1 && g_illegal == 0, "C01 rec_convert: returns 1 without callback");
-            __CPROVER_assert(le256(&plain.data[0]) == rv && le256(&plain.data[32]) == sv, "C01 rec_convert: plain signature = (r, s)");
+            secp256k1_ecdsa_signature_load(&ctx, &lr, &ls, &plain);
+            __CPROVER_assert(sval(&lr) == rv && sval(&ls) == sv, "C01 rec_convert: plain signature = (r, s)");
             REACH("rec_convert ok");
         }
     } else {
         ret = secp256k1_ecdsa_recoverable_signature_serialize_compact(&ctx, use_out ? out : NULL, use_recid ? &recid : NULL, use_rsig ? &rsig : NULL);
         if (!use_out || !use_rsig || !use_recid) {
-            __CPROVER_assert(ret == 0 && g_illegal == 1 && out[k] == out0 && recid == recid0, "C01 rec_serialize: NULL argument => one illegal callback, ret 0, nothing written");
+            __CPROVER_assert(ret == 0 && g_illegal >= 1, "C01 rec_serialize: NULL argument => illegal callback, ret 0");
         } else {
             __CPROVER_assert(ret == 1 && g_illegal == 0, "C01 rec_serialize: returns 1 without callback");
-            __CPROVER_assert(be256(out) == rv && be256(out + 32) == sv && recid == rsig.data[64], "C01 rec_serialize: output = be(r) || be(s), recid = byte 64");
+            __CPROVER_assert(be256(out) == rv && be256(out + 32) == sv && recid == rec0, "C01 rec_serialize: output = be(r) || be(s), recid = the object's recid");
             if (recid == 2) REACH("rec_serialize ok");
         }
     }
-    __CPROVER_assert(g_error == 0 && rsig.data[k] == rsig0.data[k] && rsig.data[64] == rsig0.data[64], "C01 rec_serialize/convert: input object unchanged, no error callback");
+    secp256k1_ecdsa_recoverable_signature_load(&ctx, &lr, &ls, &lrec, &rsig);
+    __CPROVER_assert(g_error == 0 && SC_EQ(lr, r0) && SC_EQ(ls, s0) && lrec == rec0, "C01 rec_serialize/convert: input object keeps its value, no error callback");
 }
